@@ -1302,7 +1302,9 @@ var ruleCmpNorm = &Rule{
 			if it, ok := sig.Params().At(0).Type().Underlying().(*types.Interface); !ok || it.NumMethods() != 0 {
 				continue
 			}
-			if b, ok := sig.Results().At(1).Type().Underlying().(*types.Basic); !ok || b.Kind() != types.Bool {
+			// the second result says whether the number could be converted: a
+			// flag, or the conversion's error
+			if b, ok := sig.Results().At(1).Type().Underlying().(*types.Basic); (!ok || b.Kind() != types.Bool) && !isErrorType(sig.Results().At(1).Type()) {
 				continue
 			}
 			reach := p.reachFrom([]*ssa.Function{fn})
